@@ -21,6 +21,7 @@
 #include <mm/auto_ckpt.h>
 #include <mm/msg_allocator.h>
 #include <serial/serial.h>
+#include <core/verif.h>
 
 /// The flag used in ScheduleNewEvent() to keep track of silent execution
 static __thread bool silent_processing = false;
@@ -61,9 +62,11 @@ void ScheduleNewEvent(lp_id_t receiver, simtime_t timestamp, unsigned event_type
 	nid_t dest_nid = lid_to_nid(receiver);
 	if(dest_nid != nid) {
 		mpi_remote_msg_send(msg, dest_nid);
+		VERIF_TRACE(VK_SEND_REMOTE, msg, current_lp - lps, 0);
 		array_push(current_lp->p.p_msgs, mark_msg_remote(msg));
 	} else {
 		atomic_store_explicit(&msg->flags, 0U, memory_order_relaxed);
+		VERIF_TRACE(VK_SEND_LOCAL, msg, current_lp - lps, 0);
 		msg_queue_insert(msg);
 		array_push(current_lp->p.p_msgs, mark_msg_sent(msg));
 	}
@@ -79,6 +82,7 @@ static inline void checkpoint_take(struct lp_ctx *lp)
 {
 	timer_uint t = timer_hr_new();
 	model_allocator_checkpoint_take(&lp->mm_state, array_count(lp->p.p_msgs));
+	VERIF_TRACE(VK_CKPT, lp - lps, array_count(lp->p.p_msgs), 0);
 	stats_take(STATS_CKPT_SIZE, lp->mm_state.full_ckpt_size);
 	stats_take(STATS_CKPT, 1);
 	stats_take(STATS_CKPT_TIME, timer_hr_value(t));
@@ -115,6 +119,7 @@ void process_lp_fini(struct lp_ctx *lp)
 
 	for(array_count_t i = 0; i < array_count(lp->p.p_msgs); ++i) {
 		struct lp_msg *msg = array_get_at(lp->p.p_msgs, i);
+		VERIF_TRACE(VK_FINI_ENTRY, lp - lps, msg, i);
 		if(is_msg_local_sent(msg))
 			continue;
 
@@ -149,6 +154,7 @@ static inline void silent_execution(const struct lp_ctx *lp, array_count_t last_
 		while(is_msg_sent(msg))
 			msg = array_get_at(lp->p.p_msgs, ++last_i);
 
+		VERIF_TRACE(VK_SILENT, lp - lps, last_i, msg);
 		global_config.dispatcher(msg->dest, msg->dest_t, msg->m_type, msg->pl, msg->pl_size, state_p);
 		stats_take(STATS_MSG_SILENT, 1);
 	} while(++last_i < past_i);
@@ -173,11 +179,14 @@ static inline void send_anti_messages(struct process_ctx *proc_p, array_count_t 
 				msg = unmark_msg_remote(msg);
 				nid_t dest_nid = lid_to_nid(msg->dest);
 				mpi_remote_anti_msg_send(msg, dest_nid);
+				VERIF_TRACE(VK_ANTI_REMOTE, msg, 0, 0);
 				msg_allocator_free_at_gvt(msg);
 			} else {
 				msg = unmark_msg_sent(msg);
+				VERIF_YIELD(VP_FLAG_ANTI);
 				uint32_t f =
 				    atomic_fetch_add_explicit(&msg->flags, MSG_FLAG_ANTI, memory_order_relaxed);
+				VERIF_TRACE(VK_ANTI_LOCAL, msg, f, 0);
 				if(f & MSG_FLAG_PROCESSED)
 					msg_queue_insert(msg);
 			}
@@ -186,7 +195,9 @@ static inline void send_anti_messages(struct process_ctx *proc_p, array_count_t 
 			msg = array_get_at(proc_p->p_msgs, ++i);
 		}
 
+		VERIF_YIELD(VP_FLAG_UNPROCESS);
 		uint32_t f = atomic_fetch_add_explicit(&msg->flags, -MSG_FLAG_PROCESSED, memory_order_relaxed);
+		VERIF_TRACE(VK_UNPROCESS, msg, f, 0);
 		if(!(f & MSG_FLAG_ANTI))
 			msg_queue_insert(msg);
 		stats_take(STATS_MSG_ROLLBACK, 1);
@@ -204,9 +215,11 @@ static void do_rollback(struct lp_ctx *lp, array_count_t past_i)
 	timer_uint t = timer_hr_new();
 	send_anti_messages(&lp->p, past_i);
 	array_count_t last_i = model_allocator_checkpoint_restore(&lp->mm_state, past_i);
+	VERIF_TRACE(VK_ROLLBACK, lp - lps, past_i, last_i);
 	stats_take(STATS_RECOVERY_TIME, timer_hr_value(t));
 	stats_take(STATS_ROLLBACK, 1);
 	silent_execution(lp, last_i, past_i);
+	VERIF_TRACE(VK_ROLLBACK_DONE, lp - lps, past_i, 0);
 }
 
 /**
@@ -264,6 +277,7 @@ static inline void handle_remote_anti_msg(struct lp_ctx *lp, struct lp_msg *a_ms
 	do {
 		if(unlikely(!i)) {
 			// Sadly this is an early remote anti-message
+			VERIF_TRACE(VK_EARLY_ANTI, a_msg, 0, 0);
 			a_msg->next = lp->p.early_antis;
 			lp->p.early_antis = a_msg;
 			return;
@@ -299,6 +313,7 @@ static inline bool check_early_anti_messages(struct process_ctx *proc_p, struct 
 	struct lp_msg *a_msg = *prev_p;
 	do {
 		if(a_msg->raw_flags == m_id && a_msg->m_seq == m_seq) {
+			VERIF_TRACE(VK_EARLY_MATCH, msg, a_msg, 0);
 			*prev_p = a_msg->next;
 			msg_allocator_free(msg);
 			msg_allocator_free(a_msg);
@@ -328,6 +343,7 @@ static void handle_anti_msg(struct lp_ctx *lp, struct lp_msg *msg, uint32_t last
 		termination_on_lp_rollback(lp, msg->dest_t);
 		auto_ckpt_register_bad(&lp->auto_ckpt);
 	}
+	VERIF_TRACE(VK_ANTI_DISCARD, msg, last_flags, 0);
 	msg_allocator_free(msg);
 }
 
@@ -368,7 +384,9 @@ void process_msg(void)
 		lp->p.bound = unlikely(array_is_empty(lp->p.p_msgs)) ? -1.0 : lp->p.bound;
 	}
 
+	VERIF_YIELD(VP_FLAG_PROCESS);
 	uint32_t flags = atomic_fetch_add_explicit(&msg->flags, MSG_FLAG_PROCESSED, memory_order_relaxed);
+	VERIF_TRACE(VK_EXTRACT, msg, flags, msg->dest);
 	if(unlikely(flags & MSG_FLAG_ANTI)) {
 		handle_anti_msg(lp, msg, flags);
 		lp->p.bound = unlikely(array_is_empty(lp->p.p_msgs)) ? -1.0 : lp->p.bound;
@@ -388,6 +406,7 @@ void process_msg(void)
 	common_msg_process(lp, msg);
 	lp->p.bound = msg->dest_t;
 	array_push(lp->p.p_msgs, msg);
+	VERIF_TRACE(VK_FORWARD, msg, lp - lps, array_count(lp->p.p_msgs) - 1);
 
 	auto_ckpt_register_good(&lp->auto_ckpt);
 	if(auto_ckpt_is_needed(&lp->auto_ckpt))
